@@ -24,6 +24,8 @@ from vlib import hexd, frac, unhex
 EPS = 2.0 ** -52
 DBL_MIN = 2.0 ** -1022
 LOG2PI = math.log(2.0 * math.pi)
+PRED_NAMES = ["KF", "UKF", "UKF-generic-StateModel"]
+CORR_NAMES = ["KF", "UKF", "SUKF", "UKF-generic-MeasurementModel", "UKF-generic-online-weights"]
 
 
 # ----------------------------------------------------------------------------- generation
@@ -36,7 +38,7 @@ def _spd(g, n, cond_hi, lo=-1.0, hi=0.5):
 def gen_case(g, tier, idx, base=None):
     r = g.r
     style = r.choice(["plain", "plain", "wna", "wna", "gausslik", "gausslik", "samebelief", "tiny", "zeros", "illcond",
-                      "neardup", "neardup", "scale", "scale", "many", "singular"])
+                      "neardup", "neardup", "scale", "scale", "many", "singular", "xcond", "xcond"])
     big_n = 4
     n = r.randint(1, big_n)
     k = r.randint(1, 8)
@@ -54,12 +56,14 @@ def gen_case(g, tier, idx, base=None):
         k = r.randint(2, 8)
     if style == "singular":
         n = r.randint(2, 4)
+    if style == "xcond":
+        n = r.randint(2, 3)
     m = r.randint(1, 3)
-    pred_kind = r.choice([0, 1])
-    corr_kind = r.choice([0, 1, 2])
+    pred_kind = r.choice([0, 1, 2])          # KF, UKF over an additive model, UKF over a generic StateModel
+    corr_kind = r.choice([0, 1, 2, 3, 4])    # KF, UKF additive, SUKF, UKF generic MeasurementModel (4: online weights)
     alpha, beta, kappa = r.choice([(1.0, 2.0, 0.0), (1.0, 2.0, 1.0), (0.75, 2.0, 0.0), (1.0, 0.0, 0.5)])
     sub = r.choice([d for d in (1, 2, 3) if m % d == 0])
-    seed = r.randint(0, 2 ** 32 - 1) if r.random() < 0.8 else r.choice([0, 1, 2 ** 32 - 1])
+    seed = r.randint(0, 2 ** 32 - 1) if r.random() < 0.75 else r.choice([0, 1, 1, 2 ** 32 - 1])
     if base is not None:
         # a further segment of the same history: same objects, hence same dimensions and configuration;
         # another number of particles
@@ -92,7 +96,7 @@ def gen_case(g, tier, idx, base=None):
         return {"A": g.mat(n, n, -1.0, 1.0), "b": g.vec(n, -1, 1),
                 "c": (0.0 if (style == "zeros" and r.random() < 0.5) else r.uniform(0.05, 3.0))}
     R = new_R()
-    exo = r.random() < 0.4 if base is None else base["exo"]
+    exo = (r.random() < 0.4 and pred_kind != 2) if base is None else base["exo"]
     vary = r.random() < 0.75          # models change from step to step (same sizes)
     cond_hi = 5.5 if style == "illcond" else 2.5
     if style == "samebelief":
@@ -103,6 +107,22 @@ def gen_case(g, tier, idx, base=None):
     else:
         means = [g.vec(n, -2, 2) for _ in range(k)]
         covs = [_spd(g, n, cond_hi) for _ in range(k)]
+    if style == "xcond":
+        # positive definite but extremely anisotropic beliefs (variance ratios 1e8 .. 1e11, e.g. position
+        # variance 1e4 next to heading variance 1e-6): every direction, however weak, must still be sampled
+        covs = []
+        for i in range(k):
+            if r.random() < 0.5:
+                covs.append(g.spd(n, cond=10 ** r.uniform(8, 10.5 if n == 2 else 9.5), scale=10 ** r.uniform(-1, 4)))
+            else:
+                d = [10 ** r.uniform(2, 4)] + [10 ** r.uniform(-7, -5) for _ in range(n - 1)]
+                r.shuffle(d)
+                U = g.orth(n) if r.random() < 0.5 else [[float(a == b) for b in range(n)] for a in range(n)]
+                A = [[sum(U[c][a] * d[c] * U[c][b] for c in range(n)) for b in range(n)] for a in range(n)]
+                for a in range(n):
+                    for b in range(a):
+                        A[a][b] = A[b][a]
+                covs.append(A)
     if style == "singular":
         # exactly representable, exactly singular PSD covariances B B^T (rank < n), per particle
         covs = []
@@ -157,7 +177,7 @@ def gen_case(g, tier, idx, base=None):
     lik_scale = r.choice([1.0, 1.0, 0.5, 3.0]) if base is None else base["lik_scale"]
     steps = []
     for s, kd in enumerate(kinds):
-        skip = (r.random() < 0.12) and not (style == "samebelief" and s == 0)
+        skip = (r.random() < (0.6 if (style == "xcond" and kd == "C") else 0.12)) and not (style == "samebelief" and s == 0)
         st = {"kind": kd, "skip": skip}
         if kd == "P":
             if vary and r.random() < 0.7:
@@ -739,7 +759,7 @@ def analyse(M, Hh, acc):
             prop.append(("non-finite-output", "%s: non-finite particle position or log-weight although the beliefs are finite" % tag))
             return None, None, None
         if st["kind"] == "P":
-            acc.hit("pred-wrapped:%s" % ["KF", "UKF"][M["pred_kind"]])
+            acc.hit("pred-wrapped:%s" % PRED_NAMES[M["pred_kind"]])
             if st.get("hand"):
                 acc.hit("prediction-object-%s-mid-history" % ("move-constructed" if int(st["hand"]) == 1 else "move-assigned"))
             if M["exo"]:
@@ -751,7 +771,7 @@ def analyse(M, Hh, acc):
                 prop.append(("predict-changed-weight", "%s: prediction changed weights" % tag))
             prev = cur
             continue
-        acc.hit("corr-wrapped:%s" % ["KF", "UKF", "SUKF"][M["corr_kind"]])
+        acc.hit("corr-wrapped:%s" % CORR_NAMES[M["corr_kind"]])
         Hf = [[Fraction(x) for x in row] for row in st["H"]]
         if tr["kind"] == 0:
             Af = [[Fraction(x) for x in row] for row in st["trans"]["A"]]
@@ -1065,7 +1085,7 @@ def run(ctx):
 
     def describe(M):
         return {"style": M["style"], "n": M["n"], "k": M["k"], "m": M["m"], "seed": M["seed"],
-                "wrapped_prediction": ["KF", "UKF"][M["pred_kind"]], "wrapped_correction": ["KF", "UKF", "SUKF"][M["corr_kind"]],
+                "wrapped_prediction": PRED_NAMES[M["pred_kind"]], "wrapped_correction": CORR_NAMES[M["corr_kind"]],
                 "transition": "WhiteNoiseAcceleration" if M["trans"]["kind"] == 1 else "harness-defined",
                 "events": ["%s%s%s%s" % (st["kind"], ",skip" if st["skip"] else "", ",invalid-likelihood" if st["kind"] == "C" and not st["valid"] else "",
                                          ",lik-kind-%d" % st["lik"]["kind"] if st["kind"] == "C" else "") for st in M["steps"]]}
